@@ -70,8 +70,81 @@ namespace vf
       H_RAISE
    };
 
+   // ---- C13: scopes of states / action families / controls / apply mode ------------------------------------
+   enum switch_kind : int
+   {
+      SW_NONE = 0,
+      RS_STATE = 1,    // state< S, R... >            a = state type id
+      RS_ACTION = 2,   // action< A, R... >           a = family
+      RS_CONTROL = 3,  // control< C, R... >          a = control id
+      RS_ENABLE = 4,
+      RS_DISABLE = 5,
+      RS_LOOKAHEAD = 6,
+      AS_CHANGE_ACTION = 10,            // attached: Action< R > : change_action< New >            a = family          (re-enters Control< R >::match)
+      AS_CHANGE_STATE = 11,             // change_state< S >                                        a = state type id
+      AS_CHANGE_ACTION_AND_STATE = 12,  // change_action_and_state< New, S >                        a = family, b = id  (re-enters)
+      AS_CHANGE_STATES = 13,            // change_states< S >                                       a = state type id
+      AS_CHANGE_CONTROL = 14,           // change_control< C >                                      a = control id
+      AS_ENABLE = 15,
+      AS_DISABLE = 16
+   };
+   struct sw
+   {
+      int kind = SW_NONE;
+      int a = -1;
+      int b = -1;
+   };
+   inline const char* sw_name( int k )
+   {
+      switch( k ) {
+         case RS_STATE:
+            return "state<>";
+         case RS_ACTION:
+            return "action<>";
+         case RS_CONTROL:
+            return "control<>";
+         case RS_ENABLE:
+            return "enable<>";
+         case RS_DISABLE:
+            return "disable<>";
+         case RS_LOOKAHEAD:
+            return "at/not_at";
+         case AS_CHANGE_ACTION:
+            return "change_action";
+         case AS_CHANGE_STATE:
+            return "change_state";
+         case AS_CHANGE_ACTION_AND_STATE:
+            return "change_action_and_state";
+         case AS_CHANGE_STATES:
+            return "change_states";
+         case AS_CHANGE_CONTROL:
+            return "change_control";
+         case AS_ENABLE:
+            return "enable_action";
+         case AS_DISABLE:
+            return "disable_action";
+         default:
+            return "none";
+      }
+   }
+   struct scope_ctx
+   {
+      int fam = -1;     // action family (-1: tao::pegtl::nothing)
+      int ctl = 0;      // control family
+      bool act = true;  // apply mode
+      long state = 0;   // serial of the state instance that is passed down (0: none)
+   };
+
    struct frame
    {
+      scope_ctx actual;         // template parameters / state this attempt was really invoked with
+      bool reentered = false;   // a re-entering attached switch (change_action...) has produced its nested attempt
+      long created_state = 0;   // serial of the state instance constructed while this attempt was innermost
+      int created_count = 0;
+      int state_success = 0;
+      const char* state_success_at = nullptr;
+      long state_success_outer = -1;
+      bool state_destroyed = false;
       std::type_index ti = std::type_index( typeid( void ) );
       int node = -1;
       bool act = false;       // A == action
@@ -93,6 +166,22 @@ namespace vf
    struct registry
    {
       std::unordered_map< std::type_index, int > map;
+      std::unordered_map< int, sw > rule_switch;                                      // by model node
+      std::map< int, std::unordered_map< std::type_index, sw > > attached;            // by action family, then rule type
+      sw attached_to( int fam, const std::type_index& t ) const
+      {
+         auto f = attached.find( fam );
+         if( f == attached.end() ) {
+            return sw();
+         }
+         auto i = f->second.find( t );
+         return i == f->second.end() ? sw() : i->second;
+      }
+      sw rule_sw( int node ) const
+      {
+         auto i = rule_switch.find( node );
+         return i == rule_switch.end() ? sw() : i->second;
+      }
       int lookup( const std::type_info& t ) const
       {
          auto i = map.find( std::type_index( t ) );
@@ -119,6 +208,9 @@ namespace vf
       bool check_positions = true;
       bool check_model = true;
       bool check_visited = false;  // sound only for grammars without until / strict (see DESIGN 1.8)
+      bool check_scopes = false;   // C13
+      long next_state_serial = 1;
+      std::uint64_t scope_ends_without_success = 0, scope_nesting_max = 0, scope_frames_open = 0, scope_checks = 0;
       bool aborted = false;  // fuel: nothing is judged
       std::uint64_t fuel = 400000;
       std::uint64_t nframes = 0;
@@ -175,6 +267,8 @@ namespace vf
          window_flagged = false;
          top_input = nullptr;
          raise_in_subinput = false;
+         next_state_serial = 1;
+         scope_ends_without_success = scope_nesting_max = scope_frames_open = scope_checks = 0;
       }
 
       void flag( const char* prop, const std::string& sig, const std::string& detail )
@@ -261,6 +355,140 @@ namespace vf
       static monitor m;
       return m;
    }
+
+   inline std::string demangled( const std::type_index& ti )
+   {
+      int st = 0;
+      char* d = abi::__cxa_demangle( ti.name(), nullptr, nullptr, &st );
+      std::string r = ( st == 0 && d ) ? d : ti.name();
+      std::free( d );
+      return r;
+   }
+
+   // ---- observable states (C13) --------------------------------------------------------------------------
+   struct obs_state_base
+   {
+      long serial = 0;
+      int type_id = -1;
+      std::size_t owner_depth = 0;  // frame stack size when constructed (the innermost open attempt owns the state)
+   };
+   inline long serial_of_first()
+   {
+      return 0;
+   }
+   template< typename S, typename... Rest >
+   long serial_of_first( const S& s, const Rest&... /*unused*/ )
+   {
+      if constexpr( std::is_base_of_v< obs_state_base, std::decay_t< S > > ) {
+         return s.serial;
+      }
+      else {
+         return -2;  // a state of a foreign type
+      }
+   }
+   struct root_state : obs_state_base
+   {
+      root_state()
+      {
+         serial = mon().next_state_serial++;
+         type_id = -1;
+      }
+   };
+   inline void state_created( obs_state_base& s, const char* cur, long outer )
+   {
+      monitor& m = mon();
+      s.serial = m.next_state_serial++;
+      s.owner_depth = m.stack.size();
+      if( m.aborted || !m.check_scopes ) {
+         return;
+      }
+      if( m.stack.empty() ) {
+         m.flag( "C13", "state:constructed-outside-attempt", "a state was constructed while no rule attempt was open" );
+         return;
+      }
+      frame& f = m.stack.back();
+      ++f.created_count;
+      f.created_state = s.serial;
+      if( cur != f.before.ptr ) {
+         m.flag( "C13", "state:constructed-at-wrong-position", "state constructed with the cursor at offset " + std::to_string( m.off( cur ) ) + " but the attached rule's attempt starts at " + std::to_string( m.off( f.before.ptr ) ) );
+      }
+      if( outer != f.actual.state ) {
+         m.flag( "C13", "state:constructed-from-wrong-outer-state", "state constructed from outer state #" + std::to_string( outer ) + " but the enclosing scope's state is #" + std::to_string( f.actual.state ) );
+      }
+   }
+   inline frame* state_owner( const obs_state_base& s, const char* what )
+   {
+      monitor& m = mon();
+      if( m.aborted || !m.check_scopes ) {
+         return nullptr;
+      }
+      if( s.owner_depth == 0 || m.stack.size() < s.owner_depth || m.stack[ s.owner_depth - 1 ].created_state != s.serial ) {
+         m.flag( "C13", std::string( "state:" ) + what + "-outside-its-scope", std::string( what ) + " of state #" + std::to_string( s.serial ) + " while the rule attempt that owns it is no longer open" );
+         return nullptr;
+      }
+      return &m.stack[ s.owner_depth - 1 ];
+   }
+   template< int ID >
+   struct obs_state : obs_state_base
+   {
+      obs_state()
+      {
+         type_id = ID;
+         state_created( *this, mon().stack.empty() ? nullptr : mon().stack.back().before.ptr, mon().stack.empty() ? 0 : mon().stack.back().actual.state );
+      }
+      template< typename ParseInput, typename... States >
+      explicit obs_state( const ParseInput& in, States&&... st )
+      {
+         type_id = ID;
+         state_created( *this, in.current(), serial_of_first( st... ) );
+      }
+      obs_state( const obs_state& ) = delete;
+      obs_state& operator=( const obs_state& ) = delete;
+      ~obs_state()
+      {
+         if( frame* f = state_owner( *this, "destruction" ) ) {
+            f->state_destroyed = true;
+         }
+      }
+      template< typename ParseInput, typename... States >
+      void success( const ParseInput& in, States&&... st )
+      {
+         if( frame* f = state_owner( *this, "success" ) ) {
+            ++f->state_success;
+            f->state_success_at = in.current();
+            f->state_success_outer = serial_of_first( st... );
+         }
+      }
+   };
+
+   // a state type that is ONLY default-constructible (change_state / change_action_and_state / state<> then take their
+   // default-construction branch)
+   template< int ID >
+   struct obs_state_dc : obs_state_base
+   {
+      obs_state_dc()
+      {
+         type_id = ID;
+         state_created( *this, mon().stack.empty() ? nullptr : mon().stack.back().before.ptr, mon().stack.empty() ? 0 : mon().stack.back().actual.state );
+      }
+      obs_state_dc( const obs_state_dc& ) = delete;
+      obs_state_dc& operator=( const obs_state_dc& ) = delete;
+      ~obs_state_dc()
+      {
+         if( frame* f = state_owner( *this, "destruction" ) ) {
+            f->state_destroyed = true;
+         }
+      }
+      template< typename ParseInput, typename... States >
+      void success( const ParseInput& in, States&&... st )
+      {
+         if( frame* f = state_owner( *this, "success" ) ) {
+            ++f->state_success;
+            f->state_success_at = in.current();
+            f->state_success_outer = serial_of_first( st... );
+         }
+      }
+   };
 
 #if defined( TAO_PEGTL_VERIF )
    // window hook (guarded instrumentation in /repo): high-water mark of the cursor inside the open
@@ -435,48 +663,62 @@ namespace vf
       return c;
    }
 
-   template< int Kind, typename Rule >
+   inline void note_action_ctx( int fam, long state_serial, const std::string& rn );  // C13, defined with the observer
+
+   template< int Kind, typename Rule, int Fam = 0 >
    struct scripted;
-   template< typename Rule >
-   struct scripted< pm::VOID_APPLY, Rule >
+   template< typename Rule, int Fam >
+   struct scripted< pm::VOID_APPLY, Rule, Fam >
    {
       template< typename ActionInput, typename... States >
-      static void apply( const ActionInput& in, States&&... )
+      static void apply( const ActionInput& in, States&&... st )
       {
          monitor& m = mon();
          const int b = m.off( in.begin() ), e = m.off( in.end() );
+         if( m.check_scopes ) {
+            note_action_ctx( Fam, serial_of_first( st... ), rule_name< Rule >() );
+         }
          maybe_throw( tag_of< Rule >(), b, e );
       }
    };
-   template< typename Rule >
-   struct scripted< pm::VOID_APPLY0, Rule >
+   template< typename Rule, int Fam >
+   struct scripted< pm::VOID_APPLY0, Rule, Fam >
    {
       template< typename... States >
-      static void apply0( States&&... )
+      static void apply0( States&&... st )
       {
          const action_call& c = current_call();
+         if( mon().check_scopes ) {
+            note_action_ctx( Fam, serial_of_first( st... ), rule_name< Rule >() );
+         }
          maybe_throw( tag_of< Rule >(), c.b, c.e );
       }
    };
-   template< typename Rule >
-   struct scripted< pm::BOOL_APPLY, Rule >
+   template< typename Rule, int Fam >
+   struct scripted< pm::BOOL_APPLY, Rule, Fam >
    {
       template< typename ActionInput, typename... States >
-      static bool apply( const ActionInput& in, States&&... )
+      static bool apply( const ActionInput& in, States&&... st )
       {
          monitor& m = mon();
          const int b = m.off( in.begin() ), e = m.off( in.end() );
+         if( m.check_scopes ) {
+            note_action_ctx( Fam, serial_of_first( st... ), rule_name< Rule >() );
+         }
          maybe_throw( tag_of< Rule >(), b, e );
          return !m.as.veto( tag_of< Rule >(), b, e );
       }
    };
-   template< typename Rule >
-   struct scripted< pm::BOOL_APPLY0, Rule >
+   template< typename Rule, int Fam >
+   struct scripted< pm::BOOL_APPLY0, Rule, Fam >
    {
       template< typename... States >
-      static bool apply0( States&&... )
+      static bool apply0( States&&... st )
       {
          const action_call& c = current_call();
+         if( mon().check_scopes ) {
+            note_action_ctx( Fam, serial_of_first( st... ), rule_name< Rule >() );
+         }
          maybe_throw( tag_of< Rule >(), c.b, c.e );
          return !mon().as.veto( tag_of< Rule >(), c.b, c.e );
       }
@@ -659,7 +901,73 @@ namespace vf
          }
       }
 
-      static std::size_t enter( const std::type_info& ti, bool act, bool required, bool enabled, const snap& before, bool lookahead, bool may_raise )
+      // context for the children of attempt P (resp. for its own action): the attached, non re-entering switch of P's rule in
+      // P's family wraps match< Rule >; the rule-level switch (state<> / action<> / control<> / enable<> / disable<> / look-ahead)
+      // applies to what the rule itself calls
+      static scope_ctx apply_switch( const sw& x, scope_ctx c, const frame& P )
+      {
+         switch( x.kind ) {
+            case RS_STATE:
+            case AS_CHANGE_STATE:
+            case AS_CHANGE_STATES:
+               c.state = P.created_state;
+               break;
+            case RS_ACTION:
+            case AS_CHANGE_ACTION:
+               c.fam = x.a;
+               break;
+            case AS_CHANGE_ACTION_AND_STATE:
+               c.fam = x.a;
+               c.state = P.created_state;
+               break;
+            case RS_CONTROL:
+            case AS_CHANGE_CONTROL:
+               c.ctl = x.a;
+               break;
+            case RS_ENABLE:
+            case AS_ENABLE:
+               c.act = true;
+               break;
+            case RS_DISABLE:
+            case RS_LOOKAHEAD:
+            case AS_DISABLE:
+               c.act = false;
+               break;
+            default:
+               break;
+         }
+         return c;
+      }
+      static bool reentering( const sw& x )
+      {
+         return x.kind == AS_CHANGE_ACTION || x.kind == AS_CHANGE_ACTION_AND_STATE;
+      }
+      static sw rule_switch_of( const frame& P )
+      {
+         monitor& m = mon();
+         if( P.node >= 0 && m.reg ) {
+            const sw x = m.reg->rule_sw( P.node );
+            if( x.kind != SW_NONE ) {
+               return x;
+            }
+         }
+         sw x;
+         if( P.lookahead ) {
+            x.kind = RS_LOOKAHEAD;
+         }
+         return x;
+      }
+      static scope_ctx own_action_ctx( const frame& F )
+      {
+         monitor& m = mon();
+         const sw att = m.reg ? m.reg->attached_to( F.actual.fam, F.ti ) : sw();
+         if( att.kind != SW_NONE && !reentering( att ) ) {
+            return apply_switch( att, F.actual, F );
+         }
+         return F.actual;
+      }
+
+      static std::size_t enter( const std::type_info& ti, bool act, bool required, bool enabled, const snap& before, bool lookahead, bool may_raise, int fam = -1, int ctl = 0, long state_serial = 0 )
       {
          monitor& m = mon();
          if( m.aborted ) {
@@ -686,6 +994,49 @@ namespace vf
          if( lookahead ) {
             ++m.lookahead_frames;
          }
+         f.actual.fam = fam;
+         f.actual.ctl = ctl;
+         f.actual.act = act;
+         f.actual.state = state_serial;
+         if( m.check_scopes && !m.stack.empty() && m.reg ) {
+            frame& P = m.stack.back();
+            const sw att = m.reg->attached_to( P.actual.fam, P.ti );
+            scope_ctx want = P.actual;
+            const char* via = "inherited";
+            if( reentering( att ) && !P.reentered ) {
+               P.reentered = true;
+               want = apply_switch( att, want, P );
+               via = sw_name( att.kind );
+               if( f.ti != P.ti ) {
+                  m.flag( "C13", std::string( "scope:switch-not-reentered:" ) + sw_name( att.kind ), "the rule with an attached " + std::string( sw_name( att.kind ) ) + " did not re-enter its own match" );
+               }
+            }
+            else {
+               if( att.kind != SW_NONE && !reentering( att ) ) {
+                  want = apply_switch( att, want, P );
+                  via = sw_name( att.kind );
+               }
+               const sw rs = rule_switch_of( P );
+               if( rs.kind != SW_NONE ) {
+                  want = apply_switch( rs, want, P );
+                  via = sw_name( rs.kind );
+               }
+            }
+            ++m.scope_checks;
+            const scope_ctx& got = f.actual;
+            if( got.fam != want.fam ) {
+               m.flag( "C13", std::string( "scope:action-family:" ) + via, demangled( f.ti ) + " is matched with action family " + std::to_string( got.fam ) + " but its scope (" + via + " on " + demangled( P.ti ) + ") prescribes family " + std::to_string( want.fam ) );
+            }
+            else if( got.ctl != want.ctl ) {
+               m.flag( "C13", std::string( "scope:control:" ) + via, demangled( f.ti ) + " is matched with control " + std::to_string( got.ctl ) + " but its scope (" + via + ") prescribes control " + std::to_string( want.ctl ) );
+            }
+            else if( got.act != want.act ) {
+               m.flag( "C13", std::string( "scope:apply-mode:" ) + via, demangled( f.ti ) + " is matched with actions " + ( got.act ? "enabled" : "disabled" ) + " but its scope (" + via + " on " + demangled( P.ti ) + ") prescribes the opposite" );
+            }
+            else if( got.state != want.state ) {
+               m.flag( "C13", std::string( "scope:state:" ) + via, demangled( f.ti ) + " receives state #" + std::to_string( got.state ) + " but its scope (" + via + " on " + demangled( P.ti ) + ") prescribes state #" + std::to_string( want.state ) );
+            }
+         }
          m.stack.push_back( f );
          return m.stack.size();
       }
@@ -708,6 +1059,43 @@ namespace vf
          }
          if( !m.stack.empty() && f.hi > m.stack.back().hi ) {
             m.stack.back().hi = f.hi;
+         }
+         // ---- C13: life cycle of a state created by this attempt ---------------------------
+         if( m.check_scopes && m.reg ) {
+            const sw att = m.reg->attached_to( f.actual.fam, f.ti );
+            const sw rs = rule_switch_of( f );
+            const bool att_state = ( att.kind == AS_CHANGE_STATE || att.kind == AS_CHANGE_STATES || att.kind == AS_CHANGE_ACTION_AND_STATE );
+            const bool creates = ( rs.kind == RS_STATE ) || att_state;
+            if( creates ) {
+               const char* kind = rs.kind == RS_STATE ? "state<>" : sw_name( att.kind );
+               if( f.created_count != 1 ) {
+                  m.flag( "C13", std::string( "state:not-constructed-once:" ) + kind, rn + ": " + std::to_string( f.created_count ) + " state instances were constructed for one attempt" );
+               }
+               else {
+                  // action-based variants call success only while actions are enabled
+                  const bool want_success = ( how == 1 ) && ( rs.kind == RS_STATE || f.actual.act );
+                  if( f.state_success != ( want_success ? 1 : 0 ) ) {
+                     m.flag( "C13", std::string( "state:success-count:" ) + kind + ( how == 1 ? ( f.actual.act ? ":matched" : ":matched-actions-disabled" ) : how == 0 ? ":failed" : ":exception" ), rn + ": success() was delivered " + std::to_string( f.state_success ) + " times to the state of an attempt that " + ( how == 1 ? "matched" : how == 0 ? "failed locally" : "ended in an exception" ) + ( f.actual.act ? "" : " with actions disabled" ) );
+                  }
+                  else if( want_success ) {
+                     if( f.state_success_at != after.ptr ) {
+                        m.flag( "C13", std::string( "state:success-position:" ) + kind, rn + ": success() saw the cursor at offset " + std::to_string( m.off( f.state_success_at ) ) + ", the match ended at " + std::to_string( m.off( after.ptr ) ) );
+                     }
+                     if( f.state_success_outer != f.actual.state ) {
+                        m.flag( "C13", std::string( "state:success-outer-state:" ) + kind, rn + ": success() received outer state #" + std::to_string( f.state_success_outer ) + ", the enclosing scope's state is #" + std::to_string( f.actual.state ) );
+                     }
+                  }
+                  if( !f.state_destroyed ) {
+                     m.flag( "C13", std::string( "state:not-destroyed:" ) + kind, rn + ": the state instance outlives the attempt it belongs to" );
+                  }
+                  if( how != 1 ) {
+                     ++m.scope_ends_without_success;
+                  }
+               }
+            }
+            else if( f.created_count != 0 ) {
+               m.flag( "C13", "state:constructed-without-scope", rn + ": a state was constructed although no state switch is attached to this rule" );
+            }
          }
          // ---- C02 -------------------------------------------------------------------
          if( how == 0 ) {
@@ -801,6 +1189,45 @@ namespace vf
             }
          }
       }
+   };
+
+   inline void note_action_ctx( int fam, long state_serial, const std::string& rn )
+   {
+      monitor& m = mon();
+      if( m.aborted || m.stack.empty() ) {
+         return;
+      }
+      const frame& F = m.stack.back();
+      const scope_ctx want = obs::own_action_ctx( F );
+      ++m.scope_checks;
+      if( fam != want.fam ) {
+         m.flag( "C13", "action:wrong-family", "action of " + rn + " was looked up in family " + std::to_string( fam ) + " but the scope in effect prescribes family " + std::to_string( want.fam ) );
+      }
+      else if( state_serial != want.state ) {
+         m.flag( "C13", "action:wrong-state", "action of " + rn + " received state #" + std::to_string( state_serial ) + " but the innermost enclosing scope's state is #" + std::to_string( want.state ) );
+      }
+   }
+
+   // family / control identification for the match() wrapper
+   template< typename T, typename = void >
+   struct fam_id_of
+   {
+      static constexpr int value = -1;
+   };
+   template< typename T >
+   struct fam_id_of< T, std::void_t< decltype( T::fam ) > >
+   {
+      static constexpr int value = T::fam;
+   };
+   template< typename T, typename = void >
+   struct ctl_id_of
+   {
+      static constexpr int value = 0;
+   };
+   template< typename T >
+   struct ctl_id_of< T, std::void_t< decltype( T::ctl_id ) > >
+   {
+      static constexpr int value = T::ctl_id;
    };
 
    template< typename In >
@@ -920,7 +1347,7 @@ namespace vf
       {
          monitor& m = mon();
          // `enabled` = are this observer's hooks expected for Rule (a wrapping control such as state_control may enable more rules for itself)
-         const std::size_t depth = obs::enter( typeid( Rule ), A == pegtl::apply_mode::action, M == pegtl::rewind_mode::required, pegtl::normal< Rule >::enable, m.take( in ), rule_is_lookahead< Rule >::value, rule_may_raise< Rule >::value || is_slot< Rule >::value );
+         const std::size_t depth = obs::enter( typeid( Rule ), A == pegtl::apply_mode::action, M == pegtl::rewind_mode::required, pegtl::normal< Rule >::enable, m.take( in ), rule_is_lookahead< Rule >::value, rule_may_raise< Rule >::value || is_slot< Rule >::value, fam_id_of< Action< void > >::value, ctl_id_of< Control< void > >::value, m.check_scopes ? serial_of_first( st... ) : 0 );
          constexpr bool eager = ( ParseInput::tracking_mode_v == pegtl::tracking_mode::eager );
          bool result;
          try {
@@ -944,6 +1371,12 @@ namespace vf
    template< typename Rule >
    struct obs_control_unw : obs_control< Rule, true >
    {};
+   // a second, otherwise identical control family (C13: control<> / change_control<>)
+   template< typename Rule >
+   struct obs_control_b : obs_control< Rule, true >
+   {
+      static constexpr int ctl_id = 1;
+   };
 
    // a control that only keeps what the scripted apply0 actions need (the begin of the current match), without any checks;
    // used underneath facilities that bring their own control (parse_tree)
@@ -1041,15 +1474,6 @@ namespace vf
       bool other_exception = false;
       std::string other_what;
    };
-
-   inline std::string demangled( const std::type_index& ti )
-   {
-      int st = 0;
-      char* d = abi::__cxa_demangle( ti.name(), nullptr, nullptr, &st );
-      std::string r = ( st == 0 && d ) ? d : ti.name();
-      std::free( d );
-      return r;
-   }
 
    inline void finish_window_check()
    {
